@@ -187,6 +187,10 @@ type vHtlc struct {
 	SetID int    `json:"set_id"`
 	Share int    `json:"share"`
 	Idx   uint32 `json:"idx"`
+	// raw root share (lets the python predicate redo the AMP derivation itself)
+	ShareHex string `json:"share_hex,omitempty"`
+	// this notification is a link's replay after a registry restart
+	AfterRestart bool `json:"after_restart,omitempty"`
 	ampRec *record.AMP
 }
 
@@ -395,10 +399,14 @@ type vSnap struct {
 	Htlcs []vSnapHtlc `json:"htlcs"`
 	// AMPState: [set id, state (0 accepted,1 canceled,2 settled), amt paid], sorted
 	AmpState [][3]uint64 `json:"amp_state"`
+	// AMPState[set].InvoiceKeys: [set id, key, key, ...] (keys ascending), sorted by set id
+	AmpKeys [][]int `json:"amp_keys"`
 }
 
 type vCase struct {
 	Kind    string         `json:"kind"`
+	Scn     string         `json:"scenario,omitempty"`
+	Restarts int           `json:"restarts,omitempty"`
 	Backend string         `json:"backend"`
 	Case    int            `json:"case"`
 	Cfg     map[string]any `json:"cfg"`
@@ -414,6 +422,10 @@ type vRun struct {
 	reg  *InvoiceRegistry
 	hodl chan interface{}
 	ops  []vOp
+	// for restarts (AMP set stream)
+	idb  InvoiceDB
+	clk  *clock.TestClock
+	cfg  RegistryConfig
 }
 
 func vCState(s ContractState) string {
@@ -527,14 +539,22 @@ func (r *vRun) snapshot() []vSnap {
 		}
 		sort.Slice(s.Htlcs, func(i, j int) bool { return s.Htlcs[i].Key < s.Htlcs[j].Key })
 		s.AmpState = [][3]uint64{}
+		s.AmpKeys = [][]int{}
 		for sid, st := range inv.AMPState {
 			id, ok := r.u.setIDs[sid]
 			if !ok {
 				id = 997
 			}
 			s.AmpState = append(s.AmpState, [3]uint64{uint64(id), uint64(st.State), uint64(st.AmtPaid)})
+			ks := []int{}
+			for k := range st.InvoiceKeys {
+				ks = append(ks, r.u.keyID(k))
+			}
+			sort.Ints(ks)
+			s.AmpKeys = append(s.AmpKeys, append([]int{id}, ks...))
 		}
 		sort.Slice(s.AmpState, func(i, j int) bool { return s.AmpState[i][0] < s.AmpState[j][0] })
+		sort.Slice(s.AmpKeys, func(i, j int) bool { return s.AmpKeys[i][0] < s.AmpKeys[j][0] })
 		out = append(out, s)
 		return true
 	}
@@ -660,6 +680,13 @@ func vNewUniverse(r *vrng, npre, nextra, naddr int, ci int) *vUniverse {
 
 func vNewRegistry(t *testing.T, mk VMakeDB, cfg RegistryConfig) *InvoiceRegistry {
 	idb, clk := mk(t)
+	return vNewRegistryOn(t, idb, clk, cfg)
+}
+
+// vNewRegistryOn starts a registry on an existing store (also used to restart).
+func vNewRegistryOn(t *testing.T, idb InvoiceDB, clk *clock.TestClock,
+	cfg RegistryConfig) *InvoiceRegistry {
+
 	notifier := &vNotifier{blockChan: make(chan *chainntnfs.BlockEpoch)}
 	// Start height 0 and no block epochs: the expiry watcher (an asynchronous
 	// caller of cancelInvoiceImpl when an accepted hold htlc reaches its
@@ -1033,6 +1060,7 @@ func vAmpCase(t *testing.T, r *vrng, ci int, backend string, mk VMakeDB) *vCase 
 		h := &vHtlc{Hash: u.lookupHashID(child.Hash), Key: key, Amt: amt, Expiry: expiry,
 			Mpp: []int64{int64(addr), int64(total)}, Amp: true, SetID: set,
 			Share: u.shareID(child.Share), Idx: idx,
+			ShareHex: hex.EncodeToString(child.Share[:]),
 			ampRec: record.NewAMP([32]byte(child.Share), setID, idx)}
 		key++
 		htlcs = append(htlcs, h)
@@ -1284,6 +1312,330 @@ func vAmpCase(t *testing.T, r *vrng, ci int, backend string, mk VMakeDB) *vCase 
 	return c
 }
 
+// ---- AMP set stream: directed interleavings of well-formed payment attempts ----
+
+type vSet struct {
+	sid    int
+	id     [32]byte
+	total  uint64
+	shards []*vHtlc
+}
+
+// restart stops the registry and starts a fresh one on the same store (hodl
+// subscriptions are volatile); like the links after a restart of lnd, the
+// harness then replays every htlc that is still held (recorded accepted).
+func (r *vRun) restart(sent []*vHtlc, height int32) {
+	_ = r.reg.Stop()
+	r.reg = vNewRegistryOn(r.t, r.idb, r.clk, r.cfg)
+	held := map[int]bool{}
+	if len(r.ops) > 0 {
+		for _, s := range r.ops[len(r.ops)-1].Snap {
+			for _, h := range s.Htlcs {
+				if h.State == "accepted" {
+					held[h.Key] = true
+				}
+			}
+		}
+	}
+	seen := map[int]bool{}
+	for _, h := range sent {
+		if held[h.Key] && !seen[h.Key] {
+			seen[h.Key] = true
+			hh := *h
+			hh.AfterRestart = true
+			r.notify(&hh, height)
+		}
+	}
+}
+
+var vAmpSetScenarios = []string{"interleave_complete_timeout", "cancel_then_settle", "borrow",
+	"invoice_cancel", "restart_replay", "total_mismatch_fixed", "short_foreign_topup", "random_sets"}
+
+func vAmpSetsCase(t *testing.T, r *vrng, ci int, backend string, mk VMakeDB) *vCase {
+	u := vNewUniverse(r, 2, 3, 2, ci)
+	rd := int32(vPick(r, []int{4, 4, 0, 10}))
+	cfg := RegistryConfig{FinalCltvRejectDelta: rd}
+	idb, clk := mk(t)
+	run := &vRun{t: t, u: u, hodl: make(chan interface{}, 256), idb: idb, clk: clk, cfg: cfg}
+	run.reg = vNewRegistryOn(t, idb, clk, cfg)
+	scn := r.intn(len(vAmpSetScenarios))
+	c := &vCase{Kind: "ampsets", Scn: vAmpSetScenarios[scn], Backend: backend, Case: ci,
+		Cfg: map[string]any{"rd": rd, "keysend": false, "kshold": false, "amp": false,
+			"kv": backend == "kv"}}
+	baseHeight := int32(vPick(r, []int{100, 700000}))
+	value := uint64(vPick(r, []int{0, 1000, 3000, 90000}))
+	if scn == 2 && value == 0 {
+		value = 1000
+	}
+	delta := int32(vPick(r, []int{4, 4, 9, 3}))
+	invA := &vInvoice{Hash: 3, Value: value, Delta: delta, Amp: true, Addr: 1, Kind: "amp_invoice"}
+	margin := delta
+	if rd > margin {
+		margin = rd
+	}
+	key := 1
+	nextSid := 1
+	groups := map[int][]*vHtlc{}
+	newRoot := func() *amp.SeedSharer {
+		var root amp.Share
+		copy(root[:], r.bytes(32))
+		root[0] |= 1
+		return amp.SeedSharerFromRoot(&root)
+	}
+	mkShard := func(set *vSet, child *amp.Child, idx uint32, amt, total uint64) *vHtlc {
+		exp := uint32(baseHeight + margin + vPick(r, []int32{0, 0, 1, 20}))
+		h := &vHtlc{Hash: u.lookupHashID(child.Hash), Key: key, Amt: amt, Expiry: exp,
+			Mpp: []int64{1, int64(total)}, Amp: true, SetID: set.sid,
+			Share: u.shareID(child.Share), Idx: idx,
+			ShareHex: hex.EncodeToString(child.Share[:]),
+			ampRec: record.NewAMP([32]byte(child.Share), set.id, idx)}
+		key++
+		groups[set.sid] = append(groups[set.sid], h)
+		return h
+	}
+	// the same child (share, index, hash) sent again under a new circuit key
+	resend := func(set *vSet, h *vHtlc, total uint64) *vHtlc {
+		hh := *h
+		hh.Key = key
+		hh.Mpp = []int64{1, int64(total)}
+		key++
+		groups[set.sid] = append(groups[set.sid], &hh)
+		return &hh
+	}
+	// a well-formed set: n shards of one root, amounts (all but the last drawn at
+	// random unless given) summing exactly to total
+	mkSet := func(n int, total uint64, amts []uint64) *vSet {
+		set := &vSet{sid: nextSid, total: total}
+		nextSid++
+		copy(set.id[:], r.bytes(32))
+		set.id[0] |= 1
+		u.setIDs[set.id] = set.sid
+		var sharer amp.Sharer = newRoot()
+		rem := total
+		for s := 0; s < n; s++ {
+			var left amp.Sharer
+			var err error
+			if s < n-1 {
+				left, sharer, err = sharer.Split()
+				if err != nil {
+					t.Fatal(err)
+				}
+			} else {
+				left = sharer
+			}
+			a := rem
+			if amts != nil {
+				a = amts[s]
+			} else if s < n-1 && rem > 0 {
+				a = uint64(r.rng(0, int64(rem)))
+			}
+			if a > rem {
+				rem = 0
+			} else {
+				rem -= a
+			}
+			set.shards = append(set.shards, mkShard(set, left.Child(uint32(s)), uint32(s), a, total))
+		}
+		return set
+	}
+	totalFor := func() uint64 {
+		tt := value
+		if r.intn(4) == 0 {
+			tt = value + 1 + uint64(r.intn(50))
+		}
+		if tt == 0 {
+			tt = uint64(1 + r.intn(1000))
+		}
+		return tt
+	}
+
+	// --- the script: a list of closures run after the oracle is tabulated ---
+	var script []func()
+	var sent []*vHtlc
+	send := func(h *vHtlc) {
+		script = append(script, func() { run.notify(h, baseHeight); sent = append(sent, h) })
+	}
+	replay := func(h *vHtlc) {
+		script = append(script, func() { run.notify(h, baseHeight) })
+	}
+	timeout := func(h *vHtlc) { script = append(script, func() { run.timeout(h) }) }
+	cancelInv := func(force bool) { script = append(script, func() { run.cancel(3, force) }) }
+	restart := func() {
+		script = append(script, func() { run.restart(sent, baseHeight); c.Restarts++ })
+	}
+	shuffle := func(hs []*vHtlc) []*vHtlc {
+		out := append([]*vHtlc{}, hs...)
+		for i := len(out) - 1; i > 0; i-- {
+			j := r.intn(i + 1)
+			out[i], out[j] = out[j], out[i]
+		}
+		return out
+	}
+	half := func(tt uint64) []uint64 { return []uint64{tt - tt/2, tt / 2} }
+
+	switch scn {
+	case 0: // two sets interleaved: X completes, Y lacks its last shard and times out
+		x := mkSet(2+r.intn(2), totalFor(), nil)
+		y := mkSet(2+r.intn(2), totalFor(), nil)
+		ny := len(y.shards)
+		for _, h := range shuffle(append(append([]*vHtlc{}, x.shards...), y.shards[:ny-1]...)) {
+			send(h)
+		}
+		for _, h := range y.shards[:ny-1] {
+			timeout(h)
+		}
+		send(y.shards[ny-1])
+		replay(vPick(r, x.shards))
+		replay(y.shards[0])
+	case 1: // a shard times out (AMPState Canceled), is sent again under a new key, the set settles
+		x := mkSet(2+r.intn(2), totalFor(), nil)
+		x0b := resend(x, x.shards[0], x.total)
+		send(x.shards[0])
+		timeout(x.shards[0])
+		send(x0b)
+		for _, h := range x.shards[1:] {
+			send(h)
+		}
+		replay(x.shards[0])
+		replay(x0b)
+	case 2: // two half-paid sets together reach the invoice value: nothing may settle
+		tt := value
+		x := mkSet(2, tt, half(tt))
+		y := mkSet(2, tt, half(tt))
+		send(x.shards[0])
+		send(y.shards[0])
+		if r.bool() {
+			z := mkSet(2, tt, half(tt))
+			send(z.shards[1])
+		}
+		send(x.shards[1])
+		timeout(y.shards[0])
+		send(y.shards[1])
+		replay(y.shards[0])
+	case 3: // CancelInvoice while two sets are held
+		x := mkSet(2+r.intn(2), totalFor(), nil)
+		y := mkSet(2, totalFor(), nil)
+		nx := len(x.shards)
+		for _, h := range shuffle(append(append([]*vHtlc{}, x.shards[:nx-1]...), y.shards[0])) {
+			send(h)
+		}
+		if r.intn(3) == 0 {
+			// a third set settles first: the cancel then errors (settled htlc present)
+			z := mkSet(1, totalFor(), nil)
+			send(z.shards[0])
+		}
+		cancelInv(r.intn(3) > 0)
+		send(x.shards[nx-1])
+		replay(x.shards[0])
+		send(y.shards[1])
+	case 4: // restarts: held htlcs are replayed, the set completes, settled htlcs are replayed
+		x := mkSet(2+r.intn(2), totalFor(), nil)
+		nx := len(x.shards)
+		for _, h := range x.shards[:nx-1] {
+			send(h)
+		}
+		restart()
+		if r.bool() {
+			y := mkSet(2, totalFor(), nil)
+			send(y.shards[0])
+			restart()
+		}
+		send(x.shards[nx-1])
+		restart()
+		for _, h := range shuffle(x.shards) {
+			replay(h)
+		}
+	case 5: // one shard declares another total: refused; sent again with the right total
+		x := mkSet(3, totalFor(), nil)
+		y := mkSet(1+r.intn(2), totalFor(), nil)
+		bad := resend(x, x.shards[1], x.total+1)
+		send(x.shards[0])
+		send(bad)
+		for _, h := range y.shards {
+			send(h)
+		}
+		send(x.shards[2])
+		send(x.shards[1])
+		replay(bad)
+	case 6: // X overpays by one; Y is one short and is topped up by a shard of a foreign root
+		tx := totalFor()
+		x := mkSet(2, tx, []uint64{tx / 2, tx - tx/2 + 1})
+		ty := totalFor() + 1
+		y := mkSet(2, ty, []uint64{ty / 2, ty - ty/2 - 1})
+		for _, h := range shuffle(append(append([]*vHtlc{}, x.shards...), y.shards...)) {
+			send(h)
+		}
+		foreign := mkShard(y, newRoot().Child(7), 7, 1, ty)
+		z := mkSet(2, totalFor(), nil)
+		send(z.shards[0])
+		send(foreign)
+		send(z.shards[1])
+		replay(y.shards[0])
+	default: // three well-formed sets, everything shuffled, timeouts / replays / restarts in between
+		var all []*vHtlc
+		for i := 0; i < 3; i++ {
+			all = append(all, mkSet(1+r.intn(3), totalFor(), nil).shards...)
+		}
+		for _, h := range shuffle(all) {
+			send(h)
+			switch r.intn(8) {
+			case 0:
+				timeout(vPick(r, all))
+			case 1:
+				replay(vPick(r, all))
+			case 2:
+				restart()
+			}
+		}
+	}
+	// random tail
+	var allH []*vHtlc
+	for sid := 1; sid < nextSid; sid++ {
+		allH = append(allH, groups[sid]...)
+	}
+	for i := r.intn(4); i > 0; i-- {
+		switch r.intn(5) {
+		case 0:
+			timeout(vPick(r, allH))
+		case 1:
+			cancelInv(r.bool())
+		case 2:
+			restart()
+		default:
+			replay(vPick(r, allH))
+		}
+	}
+
+	for sid := 1; sid < nextSid; sid++ {
+		if g := groups[sid]; len(g) > 0 {
+			if len(g) > 6 {
+				t.Fatalf("amp group too large: %d", len(g))
+			}
+			u.ampOracle(g)
+		}
+	}
+	for i := 0; i < 2; i++ {
+		c.Tbl = append(c.Tbl, [2]int{i + 1, i + 1})
+	}
+	for p, id := range u.preID {
+		if id >= 10 {
+			c.Tbl = append(c.Tbl, [2]int{id, u.anyHashID(sha256.Sum256(p[:]))})
+		}
+	}
+	sort.Slice(c.Tbl, func(i, j int) bool { return c.Tbl[i][0] < c.Tbl[j][0] })
+	c.AmpTbl = u.ampTbl
+
+	run.add(invA)
+	for _, f := range script {
+		f()
+	}
+	c.Ops = run.ops
+	for _, h := range u.hash {
+		c.HashHex = append(c.HashHex, hex.EncodeToString(h[:]))
+	}
+	return c
+}
+
 // VerifRunRegistry is the driver; makeKV comes from the external test file
 // (package invoices_test) because channeldb imports this package.
 func VerifRunRegistry(t *testing.T, makeKV VMakeDB) {
@@ -1294,6 +1646,10 @@ func VerifRunRegistry(t *testing.T, makeKV VMakeDB) {
 	namp := vCases(24, 600)
 	if v := vEnvInt("VERIF_AMP_CASES", -1); v >= 0 {
 		namp = int(v)
+	}
+	nsets := vCases(24, 600)
+	if v := vEnvInt("VERIF_AMPSET_CASES", -1); v >= 0 {
+		nsets = int(v)
 	}
 	backends := []struct {
 		name string
@@ -1327,6 +1683,17 @@ func VerifRunRegistry(t *testing.T, makeKV VMakeDB) {
 			r := master.fork(uint64(1000000 + ci))
 			t.Run("", func(t *testing.T) {
 				out.emit(vAmpCase(t, r, 2*ncases+2*ci+bi, b.name, b.mk))
+			})
+		}
+	}
+	for ci := 0; ci < nsets; ci++ {
+		for bi, b := range backends {
+			if only != "" && only != b.name {
+				continue
+			}
+			r := master.fork(uint64(2000000 + ci))
+			t.Run("", func(t *testing.T) {
+				out.emit(vAmpSetsCase(t, r, 2*ncases+2*namp+2*ci+bi, b.name, b.mk))
 			})
 		}
 	}
